@@ -152,4 +152,4 @@ class FuzzVariant:
         return model.with_overlay({self.path: new}), None
 
 
-FUZZ_KINDS = ('roundtrip', 'logging', 'swap', 'aug', 'rename', 'invert', 'nest', 'demorgan', 'fromimport')
+FUZZ_KINDS = ('roundtrip', 'logging', 'swap', 'aug', 'rename', 'invert', 'nest', 'demorgan', 'fromimport', 'fstring', 'intuple', 'static', 'explain', 'tuplebind', 'constname')
